@@ -34,7 +34,9 @@ Proof.
   destruct q as [|t' q'].
   - rewrite IH. simpl. split; [auto|]. intros [H|H]; [discriminate | assumption].
   - destruct (tok_eqb t t') eqn:E.
-    + apply tok_eqb_eq in E. subst t'. simpl. rewrite IH. split; intros [H|H]; auto; left; congruence.
+    + apply tok_eqb_eq in E. subst t'. simpl. rewrite IH. split; (intros [H|H]; [left | right; exact H]).
+      * inversion H; subst. reflexivity.
+      * inversion H; subst. reflexivity.
     + rewrite IH. simpl. split; [auto|]. intros [H|H]; [|assumption].
       inversion H; subst. rewrite tok_eqb_refl in E. discriminate.
 Qed.
@@ -42,14 +44,14 @@ Qed.
 Lemma in_heres d a : In a (heres d) <-> In ([], a) d.
 Proof.
   induction d as [|[q b] d IH]; [simpl; tauto|]. rewrite heres_cons. destruct q as [|t q].
-  - simpl. rewrite IH. split; intros [H|H]; auto; left; congruence.
+  - simpl. rewrite IH. split; (intros [H|H]; [left | right; exact H]); inversion H; subst; reflexivity.
   - rewrite IH. simpl. split; [auto|]. intros [H|H]; [discriminate | assumption].
 Qed.
 
 Lemma NoDup_deriv t d : NoDup (map fst d) -> NoDup (map fst (deriv t d)).
 Proof.
-  induction d as [|[q b] d IH]; simpl; intro H; [constructor|].
-  inversion H; subst. rewrite deriv_cons. destruct q as [|t' q']; [auto|].
+  induction d as [|[q b] d IH]; intro H; [constructor|].
+  cbn [map fst] in H. inversion H; subst. rewrite deriv_cons. destruct q as [|t' q']; [auto|].
   destruct (tok_eqb t t') eqn:E; [|auto]. apply tok_eqb_eq in E. subst t'.
   simpl. constructor; [|auto]. intro Hin. apply in_map_iff in Hin as ([p x] & Hp & Hin). simpl in Hp. subst p.
   apply in_deriv in Hin. apply H2. change (t :: q') with (fst (t :: q', x)). apply in_map. assumption.
@@ -57,8 +59,8 @@ Qed.
 
 Lemma heres_le1 d : NoDup (map fst d) -> heres d = [] \/ exists a, heres d = [a].
 Proof.
-  induction d as [|[q b] d IH]; simpl; intro H; [left; reflexivity|].
-  inversion H; subst. rewrite heres_cons. destruct q; [|auto].
+  induction d as [|[q b] d IH]; intro H; [left; reflexivity|].
+  cbn [map fst] in H. inversion H; subst. rewrite heres_cons. destruct q; [|auto].
   right. exists b. f_equal. destruct (heres d) as [|x r] eqn:E; [reflexivity|].
   exfalso. apply H2. assert (Hin : In x (heres d)) by (rewrite E; left; reflexivity).
   apply in_heres in Hin. change (@nil tok) with (fst (@nil tok, x)). apply in_map. assumption.
@@ -97,8 +99,8 @@ Fixpoint enum {A} (fuel : nat) (d : list (pat * A)) (path : str) : list (cand A)
 Lemma enum_nil {A} fuel path : enum fuel (@nil (pat * A)) path = [].
 Proof.
   revert path. induction fuel as [|f IH]; intro path; simpl; [reflexivity|].
-  destruct path as [|c rest]; [reflexivity|]. rewrite !deriv_nil, !IH. simpl.
-  destruct (Ascii.eqb c ch_slash); [reflexivity|]. destruct (take_seg rest). rewrite IH. reflexivity.
+  destruct path as [|c rest]; [reflexivity|]. rewrite !IH. cbn [map app].
+  destruct (take_seg (c :: rest)) as [seg rest']. destruct seg; [reflexivity|]. rewrite IH. reflexivity.
 Qed.
 
 (** *** matching, one token at a time *)
@@ -168,7 +170,10 @@ Proof.
   induction fuel as [|f IH]; intros d path Hlen; [lia|].
   destruct path as [|c rest].
   - simpl. clear. induction d as [|[p a] d IH]; [reflexivity|].
-    rewrite heres_cons. cbn [filter fst]. destruct p; simpl; [constructor|]; exact IH.
+    rewrite heres_cons. cbn [filter fst]. destruct p as [|t p'].
+    + simpl. apply perm_skip. exact IH.
+    + assert (E : matchesb (t :: p') [] = false) by (destruct t as [c| |]; [reflexivity | reflexivity | destruct p'; reflexivity]).
+      rewrite E. exact IH.
   - cbn [enum]. destruct (take_seg (c :: rest)) as [seg rest'] eqn:Hts.
     rewrite (filter_partition d c rest seg rest' Hts).
     rewrite !map_app. apply Permutation_app; [|apply Permutation_app].
